@@ -33,6 +33,31 @@ func (f *FilterData) SelectorMatch(item any) bool {
 
 	for i := 0; i < v.NumField(); i++ {
 		field := v.Field(i)
+
+		// a selector element that may be given several times
+		// selects the items having one of the given values
+		if field.Kind() == reflect.Slice && field.Len() > 0 {
+			itemF := reflect.ValueOf(item).Elem().FieldByName(t.Field(i).Name)
+			if !itemF.IsValid() {
+				continue
+			}
+			if itemF.Kind() != reflect.Ptr || itemF.IsNil() {
+				return false
+			}
+
+			found := false
+			for j := 0; j < field.Len(); j++ {
+				if reflect.DeepEqual(itemF.Elem().Interface(), field.Index(j).Interface()) {
+					found = true
+					break
+				}
+			}
+			if !found {
+				return false
+			}
+			continue
+		}
+
 		if field.Kind() != reflect.Ptr {
 			continue
 		}
